@@ -5,7 +5,7 @@
    "unpublished", "pending" and "handed out", and Dequeue()==nil / IsEmpty() only when the mailbox is
    empty or some enqueue is still incomplete. *)
 From Coq Require Import List Arith Bool.
-From GV Require Import C01.Model C01.Proofs C02.Contract C02.Proofs C02.Wake C02.FairStall.
+From GV Require Import C01.Model C01.Proofs C02.Contract C02.Proofs C02.Wake C02.Progress C02.FairStall.
 Import ListNotations.
 
 (* the contract is satisfiable: the two-phase (Vyukov-style) FIFO, bounded or not *)
@@ -47,13 +47,26 @@ Theorem C02_no_lost_wakeup : forall MBs MBu, mbox_ok MBs -> mbox_ok MBu -> foral
   st s = Scheduled /\ tickets s = 1.
 Proof. exact quiescent_pending_has_ticket. Qed.
 
-(* ... and no deadlock: with a pending message and a worker in the pool, some producer/worker step is enabled.
-   (partial: existence of a complete draining schedule — absence of livelock — is not proved) *)
-Theorem C02_progress_partial : forall MBs MBu, mbox_ok MBs -> mbox_ok MBu -> forall c (s : state MBs MBu),
+(* ... no deadlock in ANY reachable state: with a pending message and a worker in the pool, some producer/worker
+   step is enabled ... *)
+Theorem C02_no_deadlock : forall MBs MBu, mbox_ok MBs -> mbox_ok MBu -> forall c (s : state MBs MBu),
   restart_resets c = false -> reach MBs MBu c s -> pending MBs MBu s ->
   (exists j q, nth_error (ths s) j = Some q /\ is_worker q = true) ->
   exists i p s', nth_error (ths s) i = Some p /\ is_restarter p = false /\ step MBs MBu c s (LStep i) = Some s'.
 Proof. exact no_deadlock. Qed.
+
+(* ... and progress: from every reachable quiescent state (all producers out of doReceive, all workers back in
+   take) there is a finite continuation made ONLY of steps of one dispatcher worker after which every message the
+   turn loop would consume has been handed to the handler (nothing handled is forgotten), and the actor is
+   quiescent again — for any positive throughput budget (yield / re-push rounds included).  "Eventually" then
+   needs only a fair scheduler.  (From states with operations in flight only no_deadlock is proved.) *)
+Theorem C02_progress : forall MBs MBu, mbox_ok MBs -> mbox_ok MBu -> forall c w,
+  restart_resets c = false -> 0 < budget c ->
+  forall N (s : state MBs MBu), reach MBs MBu c s -> quiescent MBs MBu s -> nth_error (ths s) w = Some WIdle ->
+  todo MBs MBu s <= N ->
+  exists n s', run MBs MBu c s (repeat (LStep w) n) = Some s' /\ reach MBs MBu c s' /\ quiescent MBs MBu s' /\
+               todo MBs MBu s' = 0 /\ (forall y, In y (handled s) -> In y (handled s')).
+Proof. exact drain_from_quiescent. Qed.
 
 (* the fair mailbox does not satisfy the contract: witness of the permanent stall *)
 Theorem C02_fair_stall_refuted :
@@ -79,6 +92,7 @@ Print Assumptions C02_accepted_accounted.
 Print Assumptions C02_single_consumer.
 Print Assumptions C02_wake_invariant.
 Print Assumptions C02_no_lost_wakeup.
-Print Assumptions C02_progress_partial.
+Print Assumptions C02_no_deadlock.
+Print Assumptions C02_progress.
 Print Assumptions C02_fair_stall_refuted.
 Print Assumptions C02_disposed_bounded_refuted.
